@@ -86,6 +86,72 @@ CHECKS["C15"] = dict(
          "objects. Interleavings inside third-party code are not analysed.",
     ref="DESIGN.md §4 C15")
 
+CHECKS["C06"] = dict(
+    technique="decision-table extraction (exhaustive over placement x first x last and guard atoms) + syntactic block order + who-may-convert rule",
+    text="Static argument (A) for the decision logic: the two placement predicates and the figure path's inline predicates are "
+         "extracted as decision tables and equal the specification on every row; every emit site of PageRenderer.render is shown "
+         "iff component present ∧ spec(its placement field) over all valuations of its guard; block order and once-ness are "
+         "syntactic; needs_header/is_first/is_last at the three strategies equal (pageby_header ∨ first, first, last). Necessary "
+         "conditions (N): page-break geometry uses the shared inch->twip conversion and the same six margin words in the same "
+         "order as the document start; \\landscape iff orientation == 'landscape'; header/footer/settings emitted once per "
+         "document; nobody rewrites page flags after pagination.",
+    note=TRUSTED + "Not decided: numeric value of the geometry words; which rows land on which page.",
+    ref="DESIGN.md §4 C06")
+
+CHECKS["C13"] = dict(
+    technique="polars-expression lint (null-aware comparison with shifted columns) + loop/dominance rules over the grouping service",
+    text="Static argument (A) for the null clause: every comparison with a shifted column in the suppression functions is null-aware. "
+         "Necessary conditions (N): hierarchical show-condition = first row ∨ change of every higher level ∨ own change, combined by "
+         "OR and evaluated on the unsuppressed frame; only the group column is rewritten (to null); page-start indices are "
+         "cumulative heights of preceding pages and restoration covers indices x group columns; validate_data_sorting dominates "
+         "suppression, raises ValueError and sees the whole table; the contiguity key of level i covers all levels up to i.",
+    note=TRUSTED + "polars semantics of !=, ne_missing, shift as documented. Not decided: equality of the down-filled column with the "
+         "input for concrete frames.",
+    ref="DESIGN.md §4 C13")
+
+CHECKS["C16"] = dict(
+    technique="dataflow identity + linear-form cursor partition + table/offset agreement + who-may-convert rule + loop-shape rules",
+    text="Static argument (A) for payload and tables: file bytes (open rb, read, unmemoised) flow unmodified to bytes.hex(), the hex "
+         "string is partitioned exactly by range(0,len,k)/[i:i+k] with k even, whitespace-joined; suffix/MIME/blip tables equal the "
+         "documented ones; PNG IHDR and JPEG SOF offsets/marker set equal the format specifications; goal sizes use the shared "
+         "inch->twip conversion. Necessary conditions (N): per-figure loop takes data/format/width/height by index with the "
+         "last-value reuse rule and emits \\page iff not last; placement predicates equal the spec (decision tables).",
+    note=TRUSTED + "struct.unpack and bytes.hex behave as documented. Not decided: pixel dimensions of arbitrary image files.",
+    ref="DESIGN.md §4 C16")
+
+CHECKS["C17"] = dict(
+    technique="writer/reader layout agreement from abstract document shapes + CFG dominance over assemble_rtf",
+    text="Necessary conditions (N): from the abstract document shape of each encode path, the line offset between the last 'fcharset' "
+         "line and the first body line equals the constant find_start_index adds, the font-table closing line carries nothing else, "
+         "and every document ends with a line that is exactly '}'; in assemble_rtf the FileNotFoundError guard over all inputs "
+         "dominates the output open, no input is opened after the output, the empty list returns first, the start index is computed "
+         "per input from its own lines for i > 0, closing-line drop and \\page insertion are restricted to non-final inputs, in order.",
+    note=TRUSTED + "Inputs were written by this version of rtflite. Not decided: that assembled pages equal the concatenation for "
+         "concrete inputs; duplicate colour tables of later inputs.",
+    ref="DESIGN.md §4 C17")
+
+CHECKS["C18"] = dict(
+    technique="CFG dominance with exceptional edges + path-derivation dataflow over the four writers",
+    text="Static argument (A) for ordering: in write_rtf the rtf_encode() call dominates every filesystem operation on the target and "
+         "the written value is its single-assigned result; in write_docx/html/pdf every temporary resource is a "
+         "with-TemporaryDirectory item (or a context manager whose yield is protected by try/finally cleanup), every write goes "
+         "to a temp-derived path except shutil.move(converter output, target), which is dominated by convert and the "
+         "isinstance(Path) raise-guard inside both with blocks. Sibling agreement of the three converters (N).",
+    note=TRUSTED + "TemporaryDirectory removes its tree on exit; shutil.move within one file system. Not decided: atomicity of "
+         "shutil.move across file systems; LibreOffice's own temporary files.",
+    ref="DESIGN.md §4 C18")
+
+CHECKS["C20"] = dict(
+    technique="linear-form normalisation of unit lambdas + table inverse check + CFG dominance of validation",
+    text="Decides only the clauses visible in rtflite's source: unit conversions are exact multiples (A), number<->name maps are "
+         "inverse, cover 1..10 and resolve to one font file (A, exhaustive), font/unit membership checks dominate every return and "
+         "raise ValueError (A), the requested size and text reach the font loader/measurement unmodified (N). The numeric clauses "
+         "(0 for '', non-negativity, monotonicity, 1% scaling, monospace advance) are properties of Pillow/FreeType's getlength on "
+         "the bundled fonts and are NOT decided by this technique.",
+    note=TRUSTED + "Not decided (no static argument over rtflite's source can bound FreeType's results): empty-string width, "
+         "non-negativity, monotonicity under appending, scaling within 1%, monospace advance equality.",
+    ref="DESIGN.md §4 C20")
+
 NOT_YET = "check not built yet in this session (design in DESIGN.md); claimed once its checker exists"
 
 NOT_APPLICABLE: dict[str, str] = {}
